@@ -289,11 +289,19 @@ def k7(ctx):
         # the entries element is an arbitrary iterable: every site converts it with tuple(...)
         # before counting or indexing it, and uses the raw object for nothing but the None test
         if reads_entries:
-            raw_names = {k for k, v in desc.w.alias.items() if v == 'OUT2' and '.' not in k}
-            parent = enclosing_map(f.body)
+            # (the arm itself, and every helper the arm walker looked through, with the names that
+            # stood for the entries element there)
+            scopes = [(f.body, {k for k, v in desc.w.alias.items() if v == 'OUT2' and '.' not in k})]
+            for callee, al in getattr(desc.w, 'frames', ()):
+                if callee.body is not None and not any(callee.body is b for b, _ in scopes):
+                    scopes.append((callee.body, {k for k, v in al.items() if v == 'OUT2' and '.' not in k}))
             raw_uses = []
             nuse = 0
-            for n in f.body.walk():
+            for body_, raw_names in scopes:
+              if not raw_names:
+                continue
+              parent = enclosing_map(body_)
+              for n in body_.walk():
                 if n.kind != 'DeclRefExpr' or (n.ref or {}).get('name') not in raw_names:
                     continue
                 nuse += 1
